@@ -5,6 +5,13 @@ regressors (a tabular sklearn-style RegressorMixin and a sktime BaseRegressor su
 array handed to `fit`/`predict`, the returned forecast and its index are canonicalised to integers
 and (a) judged by `oracle`, the Python restatement of the theorems of coq/C05/Props.v, and (b)
 embedded into Coq cases where the Gallina model, run with the same doubles, must reproduce them.
+
+Two kinds of runs: "run" = fit [update] predict (the cutoff is the last remembered observation) and
+"hist" = call histories with update_predict (moving, detached cutoff; twice over the same data;
+followed by predict), update_predict_single and update with data that end before the remembered end,
+in which the cutoff lies INSIDE the remembered data.  The doubles record the forecaster's cutoff at
+the time of every predict call; the oracle states, for every forecast labelled from cutoff c, that
+the window fed is y[c-wl+1..c] by time label and holds nothing observed after c.
 """
 from harness.core import cbool, clist, copt, cz, czlist
 
@@ -21,8 +28,18 @@ RULE = ("random reductions: 4 strategies x 2 scitypes (inferred or explicit), se
         "from y, fh given at fit / predict / both, 0-5 observations appended by "
         "update(update_params=False) before predict (4 in 9 cases); feasibility boundary n = wl + max(fh) - 1 + "
         "{-1,0,1,2,..} oversampled; plus direct calls of _sliding_window_transform and "
-        "_infer_scitype/make_reduction dispatch on 4 estimator kinds.  non-trivial = accepted run "
-        "with >= 2 training rows (or a rejection exactly at the boundary); distinct = distinct JSON case")
+        "_infer_scitype/make_reduction dispatch on 4 estimator kinds; plus call histories (kind hist, 240 "
+        "quick / 3000 thorough, 10 scenarios x 4 strategies x 2 scitypes then random): fit on labels "
+        "off..off+n-1 (off 0/7/100), then 1-4 calls out of update(new block | older block that ends "
+        "before the remembered end, possibly with revised values | update_params=True), predict(fh "
+        "None / same / new for recursive), update_predict_single, update_predict(new or overlapping "
+        "data; sliding / expanding splitter, window 1-4, step 1-3, start_with_window both, or cv=None; "
+        "update_params False and True; the same data twice; followed by predict), with 0-2 exogenous "
+        "columns where the code supports them (update / predict only); all values distinct so that "
+        "every value identifies its variable and time label.  non-trivial = accepted run "
+        "with >= 2 training rows (or a rejection exactly at the boundary), for a history: at least one "
+        "regressor predict call made while the cutoff was before the last remembered label; "
+        "distinct = distinct JSON case")
 TRUSTED = [
     "translator/reduce_c05.py (Python ast -> Gallina integer expressions, fail-closed): the loop "
     "bound, slice bounds and rejection test of _sliding_window_transform are regenerated on every "
@@ -35,14 +52,34 @@ TRUSTED = [
     "concatenate / expand_dims / ravel as list operations; ForecastingHorizon as a sorted list of "
     "positive steps with to_indexer = h - 1; pandas .loc[start:cutoff] on an integer RangeIndex as an "
     "inclusive positional slice; sklearn clone as identity on unfitted doubles",
+    "histories: the doubles read `forecaster.cutoff` at the time of each predict call (props/c05.py "
+    "_cutoff_now); the canonicalisation of update_predict's Series / DataFrame result into one "
+    "(labels, values) forecast per moving cutoff (_canon_moving); the oracle takes the windows of "
+    "update_predict from the real splitter (property C01), the Coq model takes them from the C01 "
+    "splitter model through SkV.C10.Model.cv_windows (read-only import)",
+    "modelled: pandas combine_first on integer-labelled series as label-sorted upsert (new wins), "
+    ".loc[a:b] on a sorted integer index as the rows whose label lies in [a, b], _shift on an "
+    "integer as x + by (pinned by the extractor)",
 ]
 MODELLED = [
     "the control flow of _DirectReducer/_MultioutputReducer/_RecursiveReducer/_DirRecReducer "
-    "(_fit, _predict_last_window) and _get_last_window is a hand model tied by correspondence only "
-    "(only the integer expressions of _sliding_window_transform are regenerated)",
+    "(_fit, _predict_last_window) is a hand model tied by correspondence only (the integer "
+    "expressions of _sliding_window_transform, of the feedback loops and the label bounds of "
+    "_get_last_window are regenerated; the extractor also pins that every reducer class inherits "
+    "_get_last_window from _BaseWindowForecaster and writes its result into the window slots)",
+    "the state machine of histories (update / _update_y_X, update_predict_single, update_predict = "
+    "_predict_moving_cutoff inside _detached_cutoff, refit through fit(self._y, self._X, self._fh), "
+    "_set_fh of the two mixins, _format_moving_cutoff_predictions) is a hand model (coq/C05/Hist.v) "
+    "tied by correspondence only; per call the regressor events, the returned forecasts, the cutoff "
+    "and the remembered target series are compared",
     "integer RangeIndex only (period/datetime indices: _shift arithmetic not modelled)",
-    "in-sample horizons, NaN/inf windows (_predict_nan), update()/update_predict, prediction "
-    "intervals: outside the property's quantifier, no theorem",
+    "in-sample horizons, NaN/inf VALUES in the window, prediction intervals: outside the "
+    "property's quantifier, no theorem; a window whose labels are not all remembered gives a NaN "
+    "forecast without regressor calls (modelled, generated in the `nan` scenario)",
+    "histories: update_predict / update_predict_single only without exogenous data (the code raises "
+    "NotImplementedError when X is passed and cannot slice X otherwise); the splitter's horizon equals "
+    "the fitted horizon for direct / multioutput / dirrec; remembered labels stay consecutive (sliding "
+    "step <= window), so no NaN column appears inside update_predict's DataFrame",
     "recursive strategy with exogenous data: X passed to predict has exactly max(fh) rows "
     "(numpy would broadcast a single row; not modelled)",
 ]
